@@ -459,61 +459,185 @@ def mix_rule_material(ctx, d2):
 
 
 # ----------------------------------------------------------------------------
+def _identity_accounting(f):
+    """-> (count name, sources name, texts naming the receiver dict, statements after the count is final) or None.
+    Two equivalent ways of counting how many operand dicts are the receiver dict itself are recognised:
+      A  for v in all: if v is me: cnt += 1  else: srcs.append(v)
+      B  srcs = [v for v in all if v is not me];  cnt = len(all) - len(srcs)"""
+    me_names = {'self.dct'}
+    for n in walk_no_nested(f.node):
+        if isinstance(n, ast.Assign) and len(n.targets) == 1 and isinstance(n.targets[0], ast.Name) and src(n.value) == 'self.dct':
+            me_names.add(n.targets[0].id)
+
+    def ident(test, v, negate):
+        if isinstance(test, ast.UnaryOp) and isinstance(test.op, ast.Not):
+            return ident(test.operand, v, not negate)
+        if isinstance(test, ast.Compare) and len(test.ops) == 1 and isinstance(test.ops[0], (ast.Is, ast.IsNot)):
+            a, b = src(test.left), src(test.comparators[0])
+            if (a == v and b in me_names) or (b == v and a in me_names):
+                return isinstance(test.ops[0], ast.Is) != negate
+        return None
+
+    def blocks(node):
+        for fld in ('body', 'orelse', 'finalbody'):
+            b = getattr(node, fld, None)
+            if isinstance(b, list) and b and isinstance(b[0], ast.stmt):
+                yield b
+                for st in b:
+                    if not isinstance(st, (ast.FunctionDef, ast.ClassDef)):
+                        yield from blocks(st)
+
+    for blk in blocks(f.node):
+        for i, st in enumerate(blk):
+            # form A
+            if isinstance(st, ast.For) and isinstance(st.target, ast.Name) and len(st.body) == 1 and isinstance(st.body[0], ast.If):
+                t = st.body[0]
+                v = st.target.id
+                hit = ident(t.test, v, False)
+                if hit is None:
+                    continue
+                inc, keep = (t.body, t.orelse) if hit else (t.orelse, t.body)
+                if len(inc) == 1 and isinstance(inc[0], ast.AugAssign) and isinstance(inc[0].op, ast.Add) and isinstance(inc[0].target, ast.Name) \
+                        and src(inc[0].value) == '1' and len(keep) == 1 and isinstance(keep[0], ast.Expr) and isinstance(keep[0].value, ast.Call) \
+                        and isinstance(keep[0].value.func, ast.Attribute) and keep[0].value.func.attr == 'append' \
+                        and [src(a) for a in keep[0].value.args] == [v] and isinstance(keep[0].value.func.value, ast.Name):
+                    cnt = inc[0].target.id
+                    zero_init = any(isinstance(x, ast.Assign) and len(x.targets) == 1 and src(x.targets[0]) == cnt and src(x.value) == '0' for x in blk[:i])
+                    if zero_init:
+                        return cnt, keep[0].value.func.value.id, me_names, blk[i + 1:]
+            # form B
+            if isinstance(st, ast.Assign) and len(st.targets) == 1 and isinstance(st.targets[0], ast.Name) and isinstance(st.value, ast.ListComp) \
+                    and len(st.value.generators) == 1 and len(st.value.generators[0].ifs) == 1 and isinstance(st.value.generators[0].target, ast.Name) \
+                    and src(st.value.elt) == st.value.generators[0].target.id:
+                g = st.value.generators[0]
+                if ident(g.ifs[0], g.target.id, False) is not False:
+                    continue
+                srcs, allname = st.targets[0].id, src(g.iter)
+                for j in range(i + 1, len(blk)):
+                    x = blk[j]
+                    if isinstance(x, ast.Assign) and len(x.targets) == 1 and isinstance(x.targets[0], ast.Name) \
+                            and src(x.value) == 'len(%s) - len(%s)' % (allname, srcs):
+                        return x.targets[0].id, srcs, me_names, blk[j + 1:]
+    return None
+
+
+def _count_class(conds, cnt):
+    """what the branch conditions of a path say about the hit count: 'zero', 'one', 'many' or None (not tested)"""
+    zero = one = None
+    for test, taken in conds:
+        t = test
+        neg = False
+        while isinstance(t, ast.UnaryOp) and isinstance(t.op, ast.Not):
+            t, neg = t.operand, not neg
+        tk = taken != neg
+        if isinstance(t, ast.Name) and t.id == cnt:
+            zero = not tk
+        elif isinstance(t, ast.Compare) and len(t.ops) == 1 and src(t.left) == cnt and isinstance(t.comparators[0], ast.Constant):
+            c, op = t.comparators[0].value, type(t.ops[0])
+            if c == 0 and op in (ast.Eq, ast.LtE):
+                zero = tk
+            elif c == 0 and op in (ast.NotEq, ast.Gt):
+                zero = not tk
+            elif c == 1 and op is ast.Lt:
+                zero = tk
+            elif c == 1 and op is ast.GtE:
+                zero = not tk
+            elif c == 1 and op is ast.Eq:
+                one = tk
+            elif c == 1 and op is ast.NotEq:
+                one = not tk
+            elif c == 1 and op is ast.Gt:
+                if tk:
+                    zero, one = False, False
+            elif c == 2 and op is ast.GtE:
+                if tk:
+                    zero, one = False, False
+    if zero is True:
+        return 'zero'
+    if one is True and zero is not True:
+        return 'one'
+    if zero is False and one is False:
+        return 'many'
+    return None
+
+
+def _is_copy_of(e, me_names):
+    if isinstance(e, ast.Call) and isinstance(e.func, ast.Attribute) and e.func.attr == 'copy' and not e.args and src(e.func.value) in me_names:
+        return True
+    return isinstance(e, ast.Call) and src(e.func) == 'dict' and len(e.args) == 1 and src(e.args[0]) in me_names
+
+
+def _is_scaled_by(e, me_names, cnt):
+    if not (isinstance(e, ast.DictComp) and len(e.generators) == 1 and not e.generators[0].ifs):
+        return False
+    g = e.generators[0]
+    if not (isinstance(g.iter, ast.Call) and isinstance(g.iter.func, ast.Attribute) and g.iter.func.attr == 'items'
+            and src(g.iter.func.value) in me_names and isinstance(g.target, ast.Tuple) and len(g.target.elts) == 2):
+        return False
+    k, v = (src(x) for x in g.target.elts)
+    if src(e.key) != k or not (isinstance(e.value, ast.BinOp) and isinstance(e.value.op, ast.Mult)):
+        return False
+    return {src(e.value.left), src(e.value.right)} == {v, cnt}
+
+
 def alias_guard(ctx, d3):
     prog = ctx.prog
     f = prog.method('SparseVector', 'mix_from', rel=SP)
-    ps, _ = run_paths(f.node, max_paths=2000)
-    bad = False
-    n = 0
-    for p in ps:
-        if p.raised:
-            continue
-        clears = [e for e in p.events if e.kind == 'call' and e.target == 'self.dct.clear']
-        if not clears:
-            continue
-        n += 1
-        has_others = implied(p.conds, lambda e: src(e) == f.params[1])
-        if has_others is False:
-            continue   # no operands: clearing is the whole job
-        # an operand dict was found identical to the receiver dict on this path?
-        hit = rimplied(p, lambda t: t.startswith('(') and t.endswith(' is self.dct)') or t.startswith('(self.dct is '))
-        if hit is not False:
-            d3.fail('SparseVector.mix_from', 'clear-unguarded', 'receiver dict is cleared on a path where it may be one of the inlets', f, clears[0].stmt)
-            bad = True
-    # structure of the accounting: identity hits are counted, other dicts are kept as sources,
-    # one hit -> a copy of the receiver is a source, several hits -> the receiver scaled by the count
-    okc = False
-    why = 'identity-counting loop not found'
-    for lp in [n_ for n_ in ast.walk(f.node) if isinstance(n_, ast.For) and isinstance(n_.target, ast.Name)]:
-        v = lp.target.id
-        if not (len(lp.body) == 1 and isinstance(lp.body[0], ast.If)):
-            continue
-        t = lp.body[0]
-        if not (isinstance(t.test, ast.Compare) and isinstance(t.test.ops[0], ast.Is) and v in (src(t.test.left), src(t.test.comparators[0]))):
-            continue
-        inc = t.body[0] if t.body else None
-        keep = t.orelse[0] if t.orelse else None
-        if not (isinstance(inc, ast.AugAssign) and isinstance(inc.op, ast.Add) and isinstance(inc.target, ast.Name) and src(inc.value) == '1'):
-            why = 'identity hits are not counted'
-            continue
-        cnt = inc.target.id
-        if not (isinstance(keep, ast.Expr) and isinstance(keep.value, ast.Call) and isinstance(keep.value.func, ast.Attribute)
-                and keep.value.func.attr == 'append' and [src(a) for a in keep.value.args] == [v]):
-            why = 'non-identical inlet dicts are not kept as sources'
-            continue
-        srcs_name = src(keep.value.func.value)
-        me = src(t.test.comparators[0]) if src(t.test.left) == v else src(t.test.left)
-        txt = ' '.join(ast.unparse(f.node).split())
-        one = '%s.append(%s.copy())' % (srcs_name, me) in txt
-        many = re.search(r'%s\.append\(\{\w+: \w+ \* %s for \w+, \w+ in %s\.items\(\)\}\)' % (re.escape(srcs_name), re.escape(cnt), re.escape(me)), txt) is not None
-        zero = re.search(r'if %s == 0: %s\.clear\(\)' % (re.escape(cnt), re.escape(me)), txt) is not None
-        okc = one and many and zero
-        why = 'zero/one/many-hit handling incomplete (clear=%s, copy=%s, scaled=%s)' % (zero, one, many)
-        break
-    if not bad and okc and n:
-        d3.ok('SparseVector.mix_from', 'dict cleared only when it is none of the inlets; otherwise its own content is kept as a source (xrepeated)', f)
-    elif not bad:
-        d3.fail('SparseVector.mix_from', 'self-inlet-accounting', 'the receiver-is-an-inlet accounting is not in place: ' + why, f, f.node)
+    cons = 'SparseVector.mix_from'
+    acc = _identity_accounting(f)
+    if acc is None:
+        d3.fail(cons, 'self-inlet-accounting', 'the receiver-is-an-inlet accounting is not in place: no count of the operand dicts that are the receiver dict itself', f, f.node)
+    else:
+        cnt, srcs_name, me_names, tail = acc
+        fn = ast.FunctionDef(name='_tail', args=ast.arguments(posonlyargs=[], args=[], kwonlyargs=[], kw_defaults=[], defaults=[]),
+                             body=tail, decorator_list=[], lineno=f.node.lineno, col_offset=0)
+        ps, _ = run_paths(fn, max_paths=2000, follow_except=False)
+        seen = {'zero': 0, 'one': 0, 'many': 0}
+        bad = False
+
+        def is_me(t):
+            return t in me_names
+
+        for p in ps:
+            if p.raised:
+                continue
+            z = _count_class(p.conds, cnt)
+            clears = [e for e in p.events if e.kind == 'call' and e.target.endswith('.clear') and is_me(e.target[:-6])]
+            apps = [e for e in p.events if e.kind == 'call' and e.target == srcs_name + '.append' and e.node.args]
+            if clears and z != 'zero':
+                d3.fail(cons, 'clear-unguarded', 'receiver dict is cleared on a path where it may be one of the inlets', f, clears[0].stmt)
+                bad = True
+                continue
+            if z is None:
+                continue
+            seen[z] += 1
+            if z == 'zero':
+                if not clears:
+                    d3.fail(cons, 'self-inlet-accounting', 'the receiver-is-an-inlet accounting is not in place: old content is not dropped when the receiver is none of the inlets', f, f.node)
+                    bad = True
+            elif z == 'one':
+                if not any(_is_copy_of(e.node.args[0], me_names) for e in apps):
+                    d3.fail(cons, 'self-inlet-accounting', 'the receiver-is-an-inlet accounting is not in place: with one identity hit a copy of the receiver is not kept as a source', f, f.node)
+                    bad = True
+            else:
+                if not any(_is_scaled_by(e.node.args[0], me_names, cnt) for e in apps):
+                    d3.fail(cons, 'self-inlet-accounting', 'the receiver-is-an-inlet accounting is not in place: with several identity hits the receiver scaled by the count is not kept as a source', f, f.node)
+                    bad = True
+        # the no-operand path: clearing is the whole job (only reachable under `not others`)
+        if not bad:
+            if all(seen.values()):
+                d3.ok(cons, 'dict cleared only when it is none of the inlets (hit count %s == 0); otherwise its own content is kept as a source (copy for one hit, scaled by the count for several)' % cnt, f)
+            else:
+                d3.fail(cons, 'self-inlet-accounting', 'the receiver-is-an-inlet accounting is not in place: zero/one/many-hit handling incomplete %s' % seen, f, f.node)
+        # clears before the accounting (e.g. the no-operand shortcut) must be under `not others`
+        ps0, _ = run_paths(f.node, max_paths=2000)
+        for p in ps0:
+            if p.raised:
+                continue
+            for e in p.events:
+                if e.kind == 'call' and e.target.endswith('.clear') and (e.target[:-6] in me_names) and not any(e.stmt is t or any(e.stmt is x for x in ast.walk(t)) for t in tail):
+                    if implied(p.conds, lambda t: src(t) == f.params[1]) is not False:
+                        d3.fail(cons, 'clear-unguarded', 'receiver dict is cleared on a path where it may be one of the inlets', f, e.stmt)
     for cname, mname in (('SparseVector', 'copy_like'),):
         g = prog.method(cname, mname, rel=SP)
         ps, _ = run_paths(g.node)
